@@ -24,11 +24,14 @@ RULE = ('Hypothesis: 1-6 statements (typed programs, grammar sentences, multi-li
 ASSUMPTIONS = ['an LR parser never shifts a non-viable token, so the token reported for a by-construction error is the inserted one',
                'a STRING token may be named with or without its quotes']
 
+# stray operands: plain ones, and tokens whose text mixes non-printable characters with non-ASCII letters or backslashes
+STRAYS = ['zz', '77', '"q"', 'zz', '77', '"q"', '%\u0438\u043c\u044f\t\u043f\u043e\u043b\u044f%', '"10\xa0\u20ac"', 'r"\\d+\t\\w"', '\u00e9t\u00e9', '"\u043a\u043b\u044e\u0447\t\u0446\u0435\u043d\u0430"', 'r"C:\\dir\x0c"']
 OPERAND_END = {'NAME', 'NUMBER', 'STRING', 'RPAREN', 'RBRACKET', 'RBRACE', 'TRUE', 'FALSE', 'NONE'}
 AFTER_OP = {'PLUS', 'TIMES', 'DIVIDE', 'POWER', 'EQ', 'LT', 'AND', 'OR', 'LPAREN', 'LBRACKET', 'COMMA', 'ASSIGN', 'NEWLINE', 'MINUS', 'IN'}
 BINONLY = ['*', '/', '**', '==', 'and', 'or', 'in', '.', '|', '=>', '<=', '!=']
 MULTI = ['s = "a\\nb\\nc"', 'w = ["l1\\nl2", \'q\\n\']', 't = "x\\ty\\n" + r"raw\\n"', 'x = [\n1,\n2\n]', 'd = {\n"a": 1,\n"b": [2,\n3]\n}', 'f(\na,\nb\n)', 'y = (1 +\n 2)', 'z = [\r\n 1,\r\n 2\r\n]',
-         'g(a, # c\n b)', 'm = {"k": (1,\n\n 2) | f}']
+         'g(a, # c\n b)', 'm = {"k": [1,\n\n 2] | f}', 'x = [\n 1,\n\n 2\n]', 'f(\n\n a,\n \n b)', 'd = {\n\n"a": 1\n\n}', 'y = (\n\n1)', 'z = [\r\n\r\n 1]', 'q = [\n \t \n1,\n\n\n2]',
+         'h(a,\n\n# c\n\n b)', 'k = [1,\n\x0c\n2]'.replace('\x0c', ' ')]
 EOF_RE = re.compile(r'(?i)\bend[- ]of[- ](input|file|text|expression|program|source|code|script|statement)\b|\bEOF\b|unexpected end|premature end|'
                     r'incomplete (input|expression|program|statement)|ended unexpectedly')
 _parser = None
@@ -134,9 +137,10 @@ def build(src, mode, pos_seed, var):
         if not c:
             return None
         t = c[pos_seed % len(c)]
-        stray = ['zz', '77', '"q"'][var % 3]
+        stray = STRAYS[var % len(STRAYS)]
         new = src[:t.end] + ' ' + stray + ' ' + src[t.end:]
-        return new, stray.strip('"'), 1 + new.count('\n', 0, t.end + 1)
+        inner = stray[1:] if stray.startswith('r"') else stray
+        return new, inner.strip('"'), 1 + new.count('\n', 0, t.end + 1)
     if mode == 'binop':
         c = [t for t in toks if t.kind in AFTER_OP]
         stray = BINONLY[var % len(BINONLY)]
